@@ -58,17 +58,29 @@ class SearchImplementation(SearchFacade):
         self._cur = cursor_factory
 
     @staticmethod
-    def __add_runids(args: [], constraints: [], runids) -> []:
-        '''add ranges to args and contraints and return the runids'''
+    def __add_runids(args: [], constraints: [], runids, sql_info) -> None:
+        '''add the run ID ranges and values as one OR group
+
+        The run ID expression is the union of its ranges and values while
+        constraints are joined with AND. Hence all of them become one term.
+        '''
         indices = []
+        terms = []
         for rid in filter(lambda i: i >= 0, runids):
             if isinstance(rid, Range):
-                if rid.stop:
-                    constraints.append(_RANGE)
+                if rid.stop is None:
+                    terms.append(_RANGE_UE)
+                    args.append(rid.start)
+                else:
+                    terms.append(_RANGE)
                     args.extend((rid.start, rid.stop))
             else:
                 indices.append(rid)
-        return indices
+        if indices:
+            terms.append(_CONSTRAINT.format(sql=sql_info))
+            args.append(indices)
+        if terms:
+            constraints.append('(' + ' OR '.join(terms) + ')')
 
     def __args_n_constraints(self, parameters: Params) -> ([], []):
         args = []
@@ -76,10 +88,7 @@ class SearchImplementation(SearchFacade):
         for k, v in filter(lambda t: bool(t[1]), parameters._asdict().items()):
             sql_info = _SQL_TABLE[k]
             if k == 'runids':
-                indices = self.__add_runids(args, constraints, v)
-                if indices:
-                    constraints.append(_CONSTRAINT.format(sql=sql_info))
-                    args.append(indices)
+                self.__add_runids(args, constraints, v, sql_info)
             else:
                 connection = self._conn()
                 cursor = self._cur(connection)
